@@ -295,6 +295,8 @@ type pathEnd struct{ reason string } // infeasible assumption, crash decision, â
 
 type engineBug struct{ what string }
 
+type abortSignal struct{} // zzvf.Abort: unwinds without running deferred functions
+
 // ------------------------------------------------------------------ per-path state
 
 type frame struct {
